@@ -491,11 +491,20 @@ def run(ck, prog, ctx):
         return ps, fl
 
     nq = 0
+    QUERIES = ("common_ancestor_ids", "union_ancestor_ids", "all_common_ancestor_ids", "all_union_ancestor_ids")
     for name, want, need_ids in (("common_ancestor_ids", "and", False), ("union_ancestor_ids", "or", False), ("all_common_ancestor_ids", "and", True), ("all_union_ancestor_ids", "or", None)):
         b = prog.body(T + name)
         if not ck.anchor("ROLE", "HpoTerm::" + name, b):
             continue
         ops = operator_calls(b)
+        if not ops:
+            # a thin delegate of a sibling query (`all_union_ancestor_ids` -> `union_ancestor_ids(other)`): the sibling's body decides
+            dl = [(bi, t) for bi, t in b.calls() if (t.callee.res or "") in [T + n_ for n_ in QUERIES if n_ != name] and len(t.args) == 2]
+            if len(dl) == 1:
+                a0, a1 = params_of(pvn.of_operand(b, dl[0][1].args[0]), b.id), params_of(pvn.of_operand(b, dl[0][1].args[1]), b.id)
+                if (a0, a1) in (({1}, {2}), ({2}, {1})):
+                    b = prog.body(dl[0][1].callee.res)
+                    ops = operator_calls(b)
         if len(ops) != 1:
             ck.undecided("ROLE", name + "/operator", "expected exactly one group operator, found %d" % len(ops), where=b.where())
             continue
